@@ -142,6 +142,18 @@ def _scale_graph(spec):
     `moves` (from index, to index): a bounded window / eviction in the profiler must not change what is counted."""
     n = spec["n"]
     triples = []
+    if spec.get("kind") == "neartie":
+        # two alternative shape references whose counts differ by one in n: any rounding of frequencies turns the
+        # difference into a tie that arrival order would then decide
+        for i in range(n):
+            a = gen.iri(gen.EX + "a%d" % i)
+            o = gen.iri(gen.EX + "o%d" % i)
+            triples.append((a, gen.iri(gen.RDF_TYPE), gen.iri(gen.EX + "A")))
+            triples.append((a, gen.iri(gen.EX + "r"), o))
+            triples.append((o, gen.iri(gen.RDF_TYPE), gen.iri(gen.EX + "B")))
+            if i != n // 2:
+                triples.append((o, gen.iri(gen.RDF_TYPE), gen.iri(gen.EX + "C")))
+        return triples
     for i in range(n):
         s = gen.iri(gen.EX + "n%d" % i)
         triples.append((s, gen.iri(gen.RDF_TYPE), gen.iri(gen.EX + "C%d" % (i % 3))))
@@ -171,7 +183,10 @@ def execute(scen, scratch):
         scen = dict(scen)
         g = _scale_graph(scen["scale"])
         scen["graph"] = gen.L(g)
-        o = _apply_moves(len(g), scen["scale"]["moves"])
+        if scen["scale"].get("kind") == "neartie":
+            o = list(range(len(g) - 1, -1, -1))
+        else:
+            o = _apply_moves(len(g), scen["scale"]["moves"])
         scen["orders"] = [[o, o]]
     triples = [gen.T(t) for t in scen["graph"]]
     n = len(triples)
@@ -239,6 +254,11 @@ def extra_scenarios(tier, base):
             "scale": {"n": n, "moves": [[3, -1], [7, -1], [2, n // 2], [11, -1], [4 * n - 1 if False else 2 * n, 0]]},
             "graph": [], "target": {"all_classes_mode": True}, "options": {"instances_report_mode": "mixed"},
             "ns": dict(gen.BASE_NS), "relabel": {}, "orders": []}))
+    for (n, dec) in ([(3000, 1)] if tier == "quick" else [(3000, 1), (30000, 2), (3000, 4), (700, 0)]):
+        out.append(("neartie-%d-d%d" % (n, dec), {
+            "family": "document", "format": "nt", "schema": False, "ttl_prefixed": None,
+            "scale": {"kind": "neartie", "n": n}, "graph": [], "target": {"all_classes_mode": True},
+            "options": {"instances_report_mode": "mixed", "decimals": dec}, "ns": dict(gen.BASE_NS), "relabel": {}, "orders": []}))
     n_graphs = 2 if tier == "quick" else 60
     for gi in range(n_graphs):
         rng = random.Random("C09-exh:%s:%s" % (base, gi))
